@@ -28,7 +28,7 @@ Proof. exact init_v4_default_port. Qed.
 Print Assumptions C19_v4_default_port.
 
 Theorem C19_v6_with_port : forall A4 A6 resolve4 pton6 h6 (q : A6) p,
-  nobracket h6 -> pton6 h6 = Some q -> (p <= 65535)%N ->
+  nobracket h6 -> h6 <> [] -> pton6 h6 = Some q -> (p <= 65535)%N ->
   address_init A4 A6 resolve4 pton6 ("["%char :: h6 ++ "]"%char :: ":"%char :: print_dec p)
   = Some (mkAddr A4 A6 (IP6 A4 A6 q) p).
 Proof. exact init_v6_port. Qed.
@@ -60,8 +60,39 @@ Proof. exact print_parse_v4. Qed.
 Print Assumptions C19_print_parse_v4.
 
 Theorem C19_print_parse_v6 : forall A4 A6 resolve4 pton6 ntop4 ntop6 (q : A6) p,
-  nobracket (ntop6 q) -> pton6 (ntop6 q) = Some q -> (p <= 65535)%N ->
+  nobracket (ntop6 q) -> ntop6 q <> [] -> pton6 (ntop6 q) = Some q -> (p <= 65535)%N ->
   address_init A4 A6 resolve4 pton6 (print_address A4 A6 ntop4 ntop6 (mkAddr A4 A6 (IP6 A4 A6 q) p))
   = Some (mkAddr A4 A6 (IP6 A4 A6 q) p).
 Proof. exact print_parse_v6. Qed.
 Print Assumptions C19_print_parse_v6.
+
+(* ---- rejected, never truncated or accepted (after the fixes of the second seeding round) ---- *)
+
+(* a port is digits only: a sign, a blank, a tab, a letter, a NUL anywhere in it makes it invalid *)
+Theorem C19_port_only_digits : forall s v, port_parse s = Some v -> forallb is_digit s = true.
+Proof. exact port_only_digits. Qed.
+Print Assumptions C19_port_only_digits.
+
+Theorem C19_bad_port_rejected : forall A4 A6 resolve4 pton6 h a c b,
+  plain h -> is_digit c = false -> nobracket (a ++ c :: b) ->
+  address_init A4 A6 resolve4 pton6 (h ++ ":"%char :: a ++ c :: b) = None.
+Proof. exact init_v4_bad_port_rejected. Qed.
+Print Assumptions C19_bad_port_rejected.
+
+(* anything in front of the opening bracket of a bracketed literal: rejected (whatever follows) *)
+Theorem C19_text_before_bracket_rejected : forall A4 A6 resolve4 pton6 c pre rest,
+  ascii_eqb c "[" = false -> address_init A4 A6 resolve4 pton6 (c :: pre ++ "["%char :: rest) = None.
+Proof. exact init_prefix_rejected. Qed.
+Print Assumptions C19_text_before_bracket_rejected.
+
+(* anything but ":" behind the closing bracket: rejected (a port written without its colon is not dropped) *)
+Theorem C19_text_after_bracket_rejected : forall A4 A6 resolve4 pton6 h6 c rest,
+  nobracket h6 -> h6 <> [] -> ascii_eqb c ":" = false ->
+  address_init A4 A6 resolve4 pton6 ("["%char :: h6 ++ "]"%char :: c :: rest) = None.
+Proof. exact init_junk_after_bracket_rejected. Qed.
+Print Assumptions C19_text_after_bracket_rejected.
+
+Theorem C19_empty_brackets_rejected : forall A4 A6 resolve4 pton6 rest,
+  address_init A4 A6 resolve4 pton6 ("["%char :: "]"%char :: rest) = None.
+Proof. exact init_empty_brackets_rejected. Qed.
+Print Assumptions C19_empty_brackets_rejected.
